@@ -254,7 +254,7 @@ SUFFIX_ASSUME = [
     "the Go toolchain, pgregory.net/rapid v1.3.0 and the harness's suffix oracles (harness/suffixref.go: Burkhardt-Kaerkkaeinen checker, naive sort, naive/Kasai LCP, brute-force prefix groups) are correct",
 ]
 CHECKS["C09"] = {
-    "quick": {"tests": [{"test": "TestC09", "checks": 6000, "subchecks": 1},
+    "quick": {"tests": [{"test": "TestC09", "checks": 12000, "subchecks": 1},
                         {"test": "TestC09Enum", "checks": 1, "subchecks": 7375}]},
     "thorough": {"shards": 16, "timeout": 3000, "tests": [
         {"test": "TestC09", "checks": 30000, "subchecks": 1},
